@@ -419,6 +419,10 @@ def default_of(I, ty):
         return RMap("BTreeSet")
     if ty == "()":
         return UNIT
+    if ty.startswith("&[") or ty.startswith("&mut ["):
+        return SliceRef([], 0, 0)
+    if ty in ("&str", "&mut str"):
+        return RString([])
     if ty.startswith("syn::token::"):
         return Opaque("token")
     r = I.resolve("<%s as std::default::Default>::default" % ty)
@@ -844,6 +848,20 @@ def cow_from(I, a, n):
 @model(r"^<(&)*(std::string::String|str|std::vec::Vec|std::boxed::Box|std::option::Option|std::collections::\w+|std::path::PathBuf|F|T|\(.*\)|\[.*\]|usize|bool|char|u8|u32|i32) as std::clone::Clone>::clone$")
 def std_clone(I, a, n):
     return clone_val(I, a[0])
+
+
+@model(r"^<.* as std::clone::Clone>::clone_from$|^<.* as std::borrow::ToOwned>::clone_into$")
+def std_clone_from(I, a, n):
+    # clone_from(&mut self, source) / clone_into(&self, target: &mut Owned)
+    dst, src = (a[0], a[1]) if meth(n) == "clone_from" else (a[1], a[0])
+    v = clone_val(I, src)
+    tgt = dst
+    while isinstance(tgt, Ref) and isinstance(tgt.get(), Ref):
+        tgt = tgt.get()
+    if isinstance(v, SliceRef):
+        v = RVec(list(v.view()))
+    tgt.set(v)
+    return UNIT
 
 
 @model(r"^<.* as std::borrow::ToOwned>::to_owned$")
